@@ -493,8 +493,17 @@ func (fr *Frame) convert(st *State, x *ssa.Convert) {
 	case fs == SReal && ts == SReal:
 		fr.setVal(st, x, v.T)
 	case fs == SStr && ts == SStr:
-		// string <-> []byte: byte strings are immutable values (A-BYTES)
 		fr.setVal(st, x, v.T)
+	case fs == SStr && isByteSlice(to):
+		// []byte(s): a fresh buffer whose content is s (A-BYTES: byte slices are used whole; BS maps a buffer to its content)
+		a := u.get(st, "alloc")
+		nb := u.def("bb", SInt, a)
+		u.set(st, "alloc", "(+ "+a+" 1)")
+		u.set(st, "BS", store(u.get(st, "BS"), nb, v.T))
+		l := u.strLen(v.T, true)
+		fr.setVal(st, x, "(mkSlice "+nb+" 0 "+l+" "+l+")")
+	case isByteSlice(from) && ts == SStr:
+		fr.setVal(st, x, sel(u.get(st, "BS"), "(sbase "+v.T+")"))
 	case fs == SStr && ts == SSlice && isRuneOrByteSlice(to):
 		fr.vals[x] = u.goVal(u.fresh("runes", SSlice), to)
 		u.typeFacts(st, fr.vals[x].T, to)
